@@ -1,26 +1,55 @@
 #!/usr/bin/env python3
-"""tools/regress_seeds.py [--seed=N] [--only=prefix] [--out=file]
+"""tools/regress_seeds.py [--seed=N] [--only=prefix] [--out=file] [--jobs=4]
 Regression over the kept seeded changes: for every seeded/<id>/ whose meta.json names the quick checks that catch it,
-applies the patch to /repo, runs the FIRST of those checks at the quick tier, restores /repo, and reports whether the
-change is still caught (exit 1 of the check with a VIOLATION line). Seeds whose patch no longer applies, or that a
-later repair made harmless (meta: obsolete / not claimed), are listed separately. Never run while another check runs:
-/repo is modified while a seed is applied."""
+applies the patch to a scratch worktree of /repo's HEAD (never to /repo), runs those checks at the quick tier against
+that tree (VERIF_REPO / VERIF_OUT, see tools/try_seed_wt.py) until one reports a violation, and lists the changes that
+are no longer caught.  Seeds whose patch no longer applies, or that a later repair made harmless (meta: obsolete / not
+claimed), are listed separately.  Several trials run side by side."""
+import concurrent.futures as cf
 import json
 import os
+import shutil
 import subprocess
 import sys
+import tempfile
 
 ROOT = os.path.dirname(os.path.dirname(os.path.abspath(__file__)))
+GO = 'GOFLAGS=-mod=mod GOPROXY=off GOSUMDB=off GOTOOLCHAIN=local'
 
 
 def sh(*a, **kw):
     return subprocess.run(a, capture_output=True, text=True, **kw)
 
 
+def trial(d, checks, seed):
+    pp = os.path.join(ROOT, 'seeded', d, 'patch.diff')
+    os.makedirs('/tmp/seedtry', exist_ok=True)
+    base = tempfile.mkdtemp(prefix='r-', dir='/tmp/seedtry')
+    wt = os.path.join(base, 'repo')
+    try:
+        if sh('git', '-C', '/repo', 'worktree', 'add', '-q', '--detach', wt, 'HEAD').returncode != 0:
+            return 'INCONCLUSIVE cannot create a worktree'
+        if sh('git', '-C', wt, 'apply', pp).returncode != 0:
+            return 'PATCH DOES NOT APPLY'
+        env = dict(os.environ, VERIF_REPO=wt, VERIF_OUT=os.path.join(base, 'out'))
+        got, notes = None, []
+        for c in checks:
+            p = sh(os.path.join(ROOT, 'bin', 'check'), c, '--tier', 'quick', '--seed', seed, cwd=ROOT, env=env)
+            if p.returncode == 1 and 'VIOLATION property=' in p.stdout:
+                got = c
+                break
+            if p.returncode == 2:
+                notes.append('INCONCLUSIVE ' + c + ': ' + ' | '.join(p.stdout.splitlines()[-2:])[:200])
+        if got:
+            return 'caught by ' + got
+        return 'MISSED ' + '; '.join(notes) + ' (tried ' + ','.join(checks) + ')'
+    finally:
+        sh('git', '-C', '/repo', 'worktree', 'remove', '--force', wt)
+        shutil.rmtree(base, ignore_errors=True)
+
+
 def main():
-    seed = '1'
-    only = ''
-    out = None
+    seed, only, out, jobs = '1', '', None, 4
     for a in sys.argv[1:]:
         if a.startswith('--seed='):
             seed = a.split('=')[1]
@@ -28,43 +57,32 @@ def main():
             only = a.split('=')[1]
         if a.startswith('--out='):
             out = a.split('=')[1]
-    if sh('git', '-C', '/repo', 'status', '--porcelain').stdout.strip():
-        print('REFUSING: /repo is not clean')
-        return 2
-    res = {}
+        if a.startswith('--jobs='):
+            jobs = int(a.split('=')[1])
+    res, todo = {}, []
     for d in sorted(os.listdir(os.path.join(ROOT, 'seeded'))):
         sd = os.path.join(ROOT, 'seeded', d)
         mp = os.path.join(sd, 'meta.json')
-        pp = os.path.join(sd, 'patch.diff')
-        if not d.startswith(only) or not os.path.isfile(mp) or not os.path.isfile(pp):
+        if not d.startswith(only) or not os.path.isfile(mp) or not os.path.isfile(os.path.join(sd, 'patch.diff')):
             continue
         meta = json.load(open(mp))
         checks = meta.get('caught_by_quick_tier') or []
         if meta.get('obsolete') or not checks:
             res[d] = 'skipped (%s)' % ('obsolete: ' + str(meta.get('obsolete')) if meta.get('obsolete') else 'no quick check claims it')
             print(d, res[d], flush=True)
-            continue
-        if sh('git', '-C', '/repo', 'apply', pp).returncode != 0:
-            res[d] = 'PATCH DOES NOT APPLY'
+        else:
+            todo.append((d, checks))
+    with cf.ThreadPoolExecutor(max_workers=jobs) as ex:
+        futs = {ex.submit(trial, d, checks, seed): d for d, checks in todo}
+        for f in cf.as_completed(futs):
+            d = futs[f]
+            res[d] = f.result()
             print(d, res[d], flush=True)
-            continue
-        try:
-            got = None
-            for c in checks:
-                p = sh(os.path.join(ROOT, 'bin', 'check'), c, '--tier', 'quick', '--seed', seed, cwd=ROOT)
-                if p.returncode == 1 and 'VIOLATION property=' in p.stdout:
-                    got = c
-                    break
-                if p.returncode == 2:
-                    got = 'INCONCLUSIVE ' + c + ': ' + ' | '.join(p.stdout.splitlines()[-2:])[:200]
-            res[d] = ('caught by ' + got) if got and not got.startswith('INCONCLUSIVE') else ('MISSED ' + (got or '') + ' (tried ' + ','.join(checks) + ')')
-        finally:
-            sh('git', '-C', '/repo', 'checkout', '--', '.')
-            sh('git', '-C', '/repo', 'clean', '-fdq')
-        print(d, res[d], flush=True)
-    missed = [d for d, r in res.items() if r.startswith('MISSED') or r.startswith('PATCH')]
-    print('SUMMARY: %d seeds, %d caught, %d skipped, %d missed/not applying' % (
-        len(res), sum(r.startswith('caught') for r in res.values()), sum(r.startswith('skipped') for r in res.values()), len(missed)))
+    sh('git', '-C', '/repo', 'worktree', 'prune')
+    missed = sorted(d for d, r in res.items() if not (r.startswith('caught') or r.startswith('skipped')))
+    print('SUMMARY: %d seeds, %d caught, %d skipped, %d missed/not applying%s' % (
+        len(res), sum(r.startswith('caught') for r in res.values()), sum(r.startswith('skipped') for r in res.values()), len(missed),
+        (': ' + ', '.join(missed)) if missed else ''))
     if out:
         json.dump(res, open(out, 'w'), indent=1, sort_keys=True)
     return 1 if missed else 0
